@@ -38,7 +38,7 @@ Db(rows) == << [key |-> <<"r", 3>>, dyn |-> FALSE, cls |-> [i \in 1..Len(rows) |
 
 CONSTANTS NR,       \* number of rows of the table
           NEST,     \* TRUE: include the nested calls
-          LISTS     \* TRUE: the sub-space of tables whose witnesses are lists (the replayer also builds them in pieces)
+          LISTS     \* TRUE: the sub-space of tables whose witnesses are lists (the replayer also builds them in pieces); "order": long tables
 \* witnesses that are lists: the same list in two rows, a variant with an unbound tail, a plain row
 RowsL == { R(A("a"), MkList(<<A("p"), A("q")>>), I(1)), R(A("b"), MkList(<<A("p"), A("q")>>), I(2)), R(A("a"), Cons(A("p"), V(1)), I(3)), R(A("a"), A("b"), I(1)),
            R(A("b"), MkList(<<A("p"), V(1)>>), I(2)) }
@@ -47,8 +47,14 @@ SimpleL == { C(op, <<t, g, i>>) : op \in {"findall", "bagof", "setof"}, t \in {X
                                   i \in {L, MkList(<<V(7), V(8)>>)} }
 VARIABLES st, hist, q, rows
 gvars == <<st, hist, q, rows>>
-GInit == /\ rows \in [1..NR -> (IF LISTS THEN RowsL ELSE Rows)]
-         /\ q \in (IF LISTS THEN SimpleL ELSE Simple \cup (IF NEST THEN Nested \cup Indirect ELSE {}))
+\* longer tables whose witnesses interleave (a, b, b, a / a, b, c, c, b, a / ...): every group must list its solutions in solution order
+Wit(k) == CASE k = 1 -> A("a") [] k = 2 -> A("b") [] k = 3 -> A("c")
+TableOf(pattern) == [i \in 1..Len(pattern) |-> R(A("a"), Wit(pattern[i]), I(i))]
+TablesO == { TableOf(<<1, 2, 2, 1>>), TableOf(<<1, 2, 3, 3, 2, 1>>), TableOf(<<1, 2, 1, 2, 2, 1>>), TableOf(<<2, 1, 1, 3, 1, 2, 3>>), TableOf(<<1, 1, 2, 2, 1, 3, 2, 1>>) }
+SimpleO == { C(op, <<t, g, L>>) : op \in {"findall", "bagof", "setof"}, t \in {Z, C("-", <<Z, X>>)},
+                                  g \in {C("^", <<X, R(X, Y, Z)>>), R(X, Y, Z), C("^", <<X, C(",", <<R(X, Y, Z), C("\\==", <<Z, I(2)>>)>>)>>)} }
+GInit == /\ rows \in (IF LISTS = "order" THEN TablesO ELSE [1..NR -> (IF LISTS = "lists" THEN RowsL ELSE Rows)])
+         /\ q \in (IF LISTS = "order" THEN SimpleO ELSE IF LISTS = "lists" THEN SimpleL ELSE Simple \cup (IF NEST THEN Nested \cup Indirect ELSE {}))
          /\ st = InitState(Db(rows), q, 9)
          /\ hist = <<>>
 GNext == /\ ~Terminal(st)
